@@ -55,7 +55,7 @@ def tpl_src(t):
 
 
 def inst_src(t, inst):
-    a = [('href', '#' + (t['idsrc'] if inst.get('href_computed') else t['id']))]
+    a = [('href', '^' if inst.get('prev') else '#' + (t['idsrc'] if inst.get('href_computed') else t['id']))]
     if inst['id']: a.append(('id', inst['id']))
     if inst['xy']:
         if inst.get('only') != 'y': a.append(('x', str(inst['xy'][0])))
@@ -138,6 +138,8 @@ def run(ctx):
                           'cls': rng.choice([None, 'rc', 'rc d-red', 'kc-$w', 'rc kc-${w}']), 'style': rng.choice([None, None, 'fill:red']),
                           'omit': set(rng.sample(['w', 'h', 'label'], rng.range(0, 2))) if rng.chance(0.4) else set()})
         outer = {'w': rng.range(1, 12), 'h': rng.range(1, 12), 'label': 'outer'}
+        if place == 'inline' and rng.chance(0.5):
+            insts[0]['prev'] = True        # the template is the previous element: href="^" names it (no filler in between, see below)
         for inst in insts:
             inst['outer_w'] = outer['w']
             for k in inst['omit']:
@@ -145,7 +147,7 @@ def run(ctx):
         filler = ['<rect xy="50 50" wh="3"/>', '<text xy="60 0" text="probe $w $h $label"/>', '']
         prog = []; twin = []
         for inst in insts:
-            f = rng.choice(filler)
+            f = '' if inst.get('prev') else rng.choice(filler)
             prog.append(f + inst_src(t, inst)); twin.append(f + twin_src(t, inst))
         tsrc = tpl_src(t)
         ovar = '<var w="%d" h="%d" label="outer" kk="7"/>' % (outer['w'], outer['h'])
